@@ -15,6 +15,21 @@ checkpoints and the real error control) the implementation's loss value is compa
      same density is also evaluated in float64 (Cholesky / eigenvalue fallback) and its agreement is recorded.
  (c) exactly (as rationals): sum of the model's mahas = joint quadratic form, product of the model's determinants =
      joint determinant -- the N-point chain rule that is proved only for N = 2 (T12.3) is checked on every case.
+
+Tolerance.  The implementation works in float64 on square-root factors; its value is compared relative to the size of
+the pieces of the log-density (|maha|, |log det|, n log 2 pi).  The conditioning of the given posterior is measured by
+re-evaluating the exact density (b) on two copies of the posterior whose stored numbers are perturbed componentwise by a
+random relative 2^-44: tolerance = RTOL + SENS_FACTOR * (relative change); posteriors whose exact loss moves by more
+than SENS_MAX are counted as ill-conditioned and not compared (they arise when a dynamically calibrated output scale is
+(numerically) zero because the prior solves the ODE exactly: the stored backward conditionals then contain 0/0 garbage
+such as 1e27, see hist "illconditioned_posteriors").
+
+Also checked: remove_filtering_distributions on a stacked marginal (exact equality with the model), the documented input
+checks (wrong std containers -> ValueError, filter posterior / SmoothingSolution -> TypeError), and the model's running
+mean / sum executed on a rational surrogate valuation (= mean / sum over its terms, exactly).
+
+Replay a reported case: C12_REPLAY=<copy of replays/C12-...json> python harness/c12.py (copy the file first: the run
+rewrites replays/).
 """
 
 from __future__ import annotations
